@@ -385,6 +385,8 @@ func (ev *Eval) ident(name string) TV {
 		return TV{Zero: true, T: "0", Ty: vtInt}
 	case "now":
 		return TV{T: ev.ex.get(ev.state(), "CLK", "Int"), Ty: vtInt}
+	case "gocount":
+		return TV{T: ev.ex.get(ev.state(), "GOCNT", "Int"), Ty: vtInt}
 	case "logn":
 		return TV{T: ev.ex.get(ev.state(), "LOGN", "Int"), Ty: vtInt}
 	case "MaxInt":
@@ -811,6 +813,21 @@ func (ev *Eval) call(e ECall) TV {
 		}
 		ev.errorf("pre(): no loop-carried variable of that name")
 		return TV{T: "0", Ty: vtInt}
+	case "isEmptyString":
+		// the value is of (dynamic) type string and is the empty string -- the value rejection rule of the cache
+		x := arg(0)
+		if x.Ty.Kind == "go" && x.Ty.Go != nil {
+			if ev.ex.isStringy(x.Ty.Go) {
+				return TV{T: "(= (slen " + x.T + ") 0)", Ty: vtBool}
+			}
+			if _, isTP := types.Unalias(x.Ty.Go).(*types.TypeParam); isTP {
+				bf, _ := ev.ex.boxFn(x.Ty.Go)
+				sf, stag := ev.ex.boxFn(types.Typ[types.String])
+				b := sApp(bf, x.T)
+				return TV{T: sAnd(sEq("(dyntag "+b+")", stag), "(= (slen (un"+sf+" "+b+")) 0)"), Ty: vtBool}
+			}
+		}
+		return TV{T: "false", Ty: vtBool}
 	case "raw":
 		// raw(s, e): the element s[e] addressed by plain arithmetic (off+e) instead of the ix symbol, so that a
 		// quantifier triggered on s[k] does not re-trigger on the terms its own body creates (e.g. s[(k-1)/2])
